@@ -159,6 +159,27 @@ def profile_case(rec, rng, cid, scratch):
                   "roundtrip/value-changed/" + k.split(" ")[0],
                   "key %r: wrote %r, a new Profile object returns %r"
                   % (k, v, got), case)
+    # ---- two long-lived handles on the same file, interleaved
+    ha, hb = profile.Profile(p), profile.Profile(p)
+    keys = [k for k in d2 if k != "model_key"]
+    for _ in range(4):
+        k1, k2, k3 = [keys[i] for i in rng.permutation(len(keys))[:3]]
+        d3 = rnd_profile(rng)
+        ha[k1]                              # handle A reads
+        hb[k2] = d3[k2]                     # handle B writes
+        allv[k2] = d3[k2]
+        ha[k3] = d3[k3]                     # handle A writes another key
+        allv[k3] = d3[k3]
+        for k, v in ((k2, d3[k2]), (k3, d3[k3])):
+            rec.event("set/get round trips through new Profile objects")
+            rec.event("interleaved writes through two live handles")
+            rec.evaluated(dg=("two-handles", k, v))
+            got = profile.Profile(p)[k]
+            rec.check(got == v, "roundtrip/lost-update-with-two-handles/"
+                      + k.split(" ")[0],
+                      "key %r written as %r through one Profile object, "
+                      "then another key written through a second live "
+                      "object: a new object returns %r" % (k, v, got), case)
     # ---- fit parameters
     prm = profile.Profile(p).get_fit_params()
     rec.evaluated(dg=("fitparams", d2["model_key"], fitvals))
